@@ -102,6 +102,9 @@ def relayouts(src, rnd):
     out["trailing-comment-on-every-line"] = "\n".join(l + "  # note" if l.strip() else l for l in lines) + "\n"
     out["trailing-comment-on-headers"] = "\n".join(l + "  # hdr" if l.rstrip().endswith(":") else l for l in lines) + "\n"
     out["trailing-whitespace"] = "\n".join(l + "   " for l in lines) + "\n"
+    out["trailing-tab"] = "\n".join(l + "\t" if l.strip() else l for l in lines) + "\n"
+    out["tab-before-trailing-comment"] = "\n".join(l + "\t# note" if l.strip() else l for l in lines) + "\n"
+    out["tab-before-trailing-comment-on-headers"] = "\n".join(l + "\t\t# hdr" if l.rstrip().endswith(":") else l for l in lines) + "\n"
     for col, tag in ((0, "col0"), (2, "col2"), (12, "col12")):
         acc = []
         for l in lines:
@@ -164,6 +167,8 @@ DROP_PROBES = {
     "statements-after-an-if-that-starts-an-elif-block": ("from Reduino.Actuators import Led\nled = Led(13)\na = 1\nif a > 5:\n    led.on()\nelif a > 3:\n    if a > 4:\n        led.off()\n    led.set_brightness(78)\nelse:\n    led.off()\n", "78"),
     "led-call-in-helper-defined-above-the-declaration": ("from Reduino.Actuators import Led\ndef pulse():\n    led.on()\n    led.off()\n    led.toggle()\nled = Led(13)\npulse()\n", "digitalWrite(13, HIGH)"),
     "statements-of-the-second-except-clause-stay-in-their-handler": ("from Reduino.Actuators import Led\nled = Led(13)\ntry:\n    led.on()\nexcept Exception:\n    led.off()\nexcept ValueError:\n    led.set_brightness(91)\nled.set_brightness(92)\n", "catch (ValueError"),
+    "melody-name-in-mixed-case": ("from Reduino.Actuators import Buzzer\nbz = Buzzer(8)\nbz.melody('Success')\n", "tone("),
+    "melody-name-in-upper-case-in-a-helper": ("from Reduino.Actuators import Buzzer\nbz = Buzzer(8)\ndef play():\n    bz.melody(name='SIREN')\nplay()\n", "tone("),
     "return-tight-against-parenthesis": ("def ten():\n    return(10)\nr = ten()\n", "return"),
     "return-tight-against-minus": ("def minus():\n    return-1\nr = minus()\n", "return"),
     "return-tight-against-string": ("def word():\n    return'ab'\nr = word()\n", "return"),
